@@ -1,6 +1,6 @@
 """Stand-alone reproductions of the C13 driver defects with plain mocks (no simulator, no TLC):
     /venv/bin/python /verif/bind/c13_repro.py        (imports nfcpy from /repo/src or $NFCPY_SRC)"""
-import sys, errno, logging
+import sys, logging
 import os
 sys.path.insert(0, os.environ.get("NFCPY_SRC", "/repo/src"))
 logging.disable(logging.CRITICAL)
